@@ -354,6 +354,10 @@ Fixpoint settle (fuel : nat) (st : state) (now : ts) : state * list event :=
 Inductive dop :=
 | DOp (h : hop)                    (* set / cancel from a worker thread *)
 | DClock (t : ts)                  (* the clock now reads t *)
+| DClockThen (t : ts) (h : hop)    (* the clock now reads t and, in the window between the timer thread's wait timing
+                                      out and its re-taking the mutex, a worker thread makes the call h (a cancel of the
+                                      head timer, say): timer.c re-reads the clock and rescans after the re-lock, so this
+                                      is the call followed by the scan *)
 | DHold (h : hop)                  (* a set whose caller is parked between unlock and return *)
 | DRelease.                        (* that caller returns *)
 
@@ -366,6 +370,8 @@ Definition drive1 (repaired : bool) (fuel : nat) (s : state * ts * list (nat * Z
   | DOp h => let (st1, e1) := do_hop false st now h in
              let (st2, e2) := settle fuel st1 now in (st2, now, held, e1 ++ e2)
   | DClock t => let (st2, e2) := settle fuel st t in (st2, t, held, e2)
+  | DClockThen t h => let (st1, e1) := do_hop false st t h in
+                      let (st2, e2) := settle fuel st1 t in (st2, t, held, e1 ++ e2)
   | DHold h =>
       match hop_label false st now h with
       | LSet t cb => let (st1, id) := do_set st t cb in
